@@ -12,7 +12,7 @@ Section Unwrap.
   Fixpoint chain_mid (sts : list stage) (r : list token) : Prop :=
     match sts with
     | [] => True
-    | s :: t => simple_stage re_names s /\ follows_ok s (print_stages anch re_names t ++ r) /\ chain_mid t r
+    | s :: t => simple_stage anch re_names s /\ follows_ok s (print_stages anch re_names t ++ r) /\ chain_mid t r
     end.
 
   (** the pipeline of a range expression stops in front of `| unwrap` (allowUnwrap), with the pipe consumed *)
@@ -63,7 +63,7 @@ Section Unwrap.
 
   Definition pipe_or_filter (t : token) : bool := is_ty t TPipe || is_ty t TPipeExact || is_ty t TPipeMatch || is_ty t TNotEq || is_ty t TNotRe.
 
-  Lemma stage_head s r : simple_stage re_names s ->
+  Lemma stage_head s r : simple_stage anch re_names s ->
     exists t0 tl, print_stage anch re_names s ++ r = t0 :: tl /\ is_ty t0 TOpenBracket = false /\ pipe_or_filter t0 = true.
   Proof.
     intro Hs. destruct s as [o v ip|jl je|ll le| | |pt| |lt| | |rs ts|ls ms|ls ms|ls]; cbn in Hs; try contradiction;
